@@ -26,16 +26,20 @@ VARIABLES st,          \* code-shaped session state
 vars == <<st, mu, hist, bad, lead, seen>>
 
 \* mid: every method, the four meta classes that matter most (long random sequences stay interesting)
-\* (each of the three meta classes once more in a non-plain spelling of its keys)
+\* (each of the three meta classes once more in a non-plain spelling of its keys, and some presentations of the
+\* metadata other than the ordinary one: a case variant of `_meta` alone / next to an incomplete `_meta`,
+\* duplicate `_meta` members ending in an unsupported version / in null)
 MidLetters == {l \in Letters : /\ l.mt \in {"none", "ok", "nocaps", "newer"}
-                               /\ \/ l.sp = "plain"
-                                  \/ <<l.mt, l.sp>> \in {<<"ok", "uni">>, <<"nocaps", "esc">>, <<"newer", "esc">>}}
+                               /\ \/ (l.mk = "exact" /\ l.sp = "plain")
+                                  \/ (l.mk = "exact" /\ <<l.mt, l.sp>> \in {<<"ok", "uni">>, <<"nocaps", "esc">>, <<"newer", "esc">>})
+                                  \/ <<l.mt, l.mk>> \in {<<"ok", "case">>, <<"nocaps", "both">>, <<"newer", "dup">>,
+                                                         <<"ok", "dupnull">>, <<"ok", "idup">>}}
 Alpha == CASE AlphaSel = "core" -> CoreLetters [] AlphaSel = "mid" -> MidLetters [] OTHER -> Letters
 
 Init == /\ st = St0 /\ mu = Mu0 /\ hist = <<>> /\ bad = {} /\ lead = FALSE /\ seen = {}
 
-Do(m, mt, ip, sp) ==
-  LET l == L(m, mt, ip, sp)
+Do(m, mt, ip, sp, mk) ==
+  LET l == L(m, mt, ip, sp, mk)
       n == Len(hist) + 1
       r == Step(st, l, n)
   IN /\ l \in Alpha
@@ -47,7 +51,7 @@ Do(m, mt, ip, sp) ==
      /\ mu' = PStep(mu, l, r.o, TRUE)
      /\ hist' = Append(hist, l)
 
-Next == \E m \in Methods, mt \in MetaClasses, ip \in InitParamClasses \cup {"na"}, sp \in Spellings : Do(m, mt, ip, sp)
+Next == \E l \in Alpha : Do(l.m, l.mt, l.ip, l.sp, l.mk)
 Spec == Init /\ [][Next]_vars
 
 \* ---- design check: the code-shaped model satisfies every clause on every step, except for the
@@ -89,7 +93,7 @@ TableView == <<st.ip, st.idp, mu.acc, mu.inited, mu.modern>>
 WitView == <<st.ip, st.idp, mu.acc, mu.inited, mu.modern, seen>>
 
 \* ---- export of complete sequences (used as an invariant: evaluated once per distinct state)
-LetterJson(l) == [m |-> l.m, mt |-> l.mt, ip |-> l.ip, sp |-> l.sp]
+LetterJson(l) == [m |-> l.m, mt |-> l.mt, ip |-> l.ip, sp |-> l.sp, mk |-> l.mk]
 Export == IF MaxLen > 0 /\ Len(hist) = MaxLen
           THEN PrintT(ToJson([seq |-> [i \in 1..Len(hist) |-> LetterJson(hist[i])]]))
           ELSE TRUE
@@ -99,6 +103,11 @@ ExportLeads == \A l \in Alpha :
                  IF RowFailed(l) # {}
                  THEN PrintT(ToJson([lead |-> LetterJson(l), phase |-> PhaseName(mu), clauses |-> SetToSeq(RowFailed(l))]))
                  ELSE TRUE
+\* the alphabet with what each letter carries (table config, once): the generator and the HTTP leg of the
+\* replay select on the carried class, and take it from here
+ExportAlphabet == IF Len(hist) = 0
+                  THEN \A l \in Alpha : PrintT(ToJson([alpha |-> LetterJson(l), carried |-> Carried(l)]))
+                  ELSE TRUE
 \* one line per joint state: how many cells its row has
 ExportRow == PrintT(ToJson([row |-> PhaseName(mu), ip |-> st.ip, idp |-> st.idp, cells |-> Cardinality(Alpha)]))
 
